@@ -4,9 +4,10 @@ C12 check.  No third-party imports (start-up time matters: hundreds of launches 
 The fake programs stand for LAMMPS / CP2K / GROMACS with respect to the *file and timing
 contract* the infretis engine classes rely on, nothing more:
 
-* dynamics: free flight, x += v*dt per MD step, and a box that changes linearly per MD step
-  (rates from the control file).  This is deterministic and time-reversible: started from
-  (x_j, -v_j) with the box rates negated it retraces x_j, x_{j-1}, ...
+* dynamics: uniformly accelerated flight (velocity Verlet under a constant acceleration from
+  the control file, default none) and a box that changes linearly per MD step (rates from the
+  control file).  This is deterministic and time-reversible: started from (x_j, -v_j) with the
+  box rates negated it retraces x_j, x_{j-1}, ...; velocities differ from frame to frame.
 * the trajectory is written in the program's real output format by the caller; this module
   only decides WHEN bytes become visible, following a schedule from a control file:
 
@@ -22,6 +23,7 @@ contract* the infretis engine classes rely on, nothing more:
                (null = as many as the input asks for)
     exit_code  exit status when it ends by itself
     box_rate   per-MD-step change of every box number (list), default none
+    accel      constant acceleration [ax, ay, az] of every atom, default none
     cut        "line" | "midline": where a frame is cut in two parts (text formats)
 """
 import json
@@ -169,18 +171,22 @@ def fmt(x):
     return repr(float(x))
 
 
-def free_flight(pos, vel, box, box_rate, dt, nsteps, every):
-    """Frames (pos, vel, box) at MD steps 0, every, 2*every, ... <= nsteps."""
+def free_flight(pos, vel, box, box_rate, dt, nsteps, every, accel=None):
+    """Frames (pos, vel, box) at MD steps 0, every, 2*every, ... <= nsteps.  Velocity Verlet under
+    a constant, position-independent acceleration `accel` (same for every atom; None = free
+    flight): deterministic and time-reversible, exact for dyadic inputs."""
     pos = [list(map(float, p)) for p in pos]
     vel = [list(map(float, v)) for v in vel]
     box = [float(b) for b in box]
     rate = [float(r) for r in (box_rate or [])] + [0.0] * len(box)
+    acc = [float(a) for a in (accel or [0.0, 0.0, 0.0])]
     out = []
     for step in range(0, nsteps + 1):
         if step % every == 0:
             out.append(([p[:] for p in pos], [v[:] for v in vel], box[:]))
         for p, v in zip(pos, vel):
             for d in range(3):
-                p[d] += v[d] * dt
+                p[d] += v[d] * dt + 0.5 * acc[d] * dt * dt
+                v[d] += acc[d] * dt
         box = [b + r for b, r in zip(box, rate)]
     return out
